@@ -1,6 +1,22 @@
-"""C18: Concurrency limits are enforced without starvation. See DESIGN.md section 4 (C18), checks/lmm_check.py and checks/lmm_common.py."""
+"""C18: Concurrency limits are enforced without starvation.  See DESIGN.md section 4 (C18), checks/lmm_check.py (pipeline) and checks/lmm_common.py.
+
+What is decided: after every operation of every replayed history the driver logs the projected state of every system
+(get_concurrency_slack of every constraint, sharing and staged penalty of every variable) and TLC checks, on the abstract system
+that follows the implementation: TransOk (the change is one Lmm!Post allows: which staged variable takes a freed slot is left
+open), ConcOk (slack = limit - number of enabled variables of weight >= 1, never negative), NoStarv (a staged variable is disabled
+and uses a constraint without free slot).  M: ConcurrencyOk and NoStarvation are invariants of the abstract staging semantics
+in every state of the small-scope exploration of Lmm.tla.
+
+Mutations tried (scratch worktree, quick tier with VERIF_LMM_SCALE=0.4):
+  M2  disable_var forgets elem.decrease_concurrency()                                          caught (ConcOk, NoStarv, TransOk; exit 1)
+  M5  expand stages only when the slack is < -1 instead of < 0                                 caught (ConcOk, TransOk; exit 1)
+With the seven proposed fixes applied the check reports no rejection at all.
+"""
 import lmm_check, lmm_common
 LEVEL = "model_checking"
+META = {"text": 'TLC-generated histories on constraints with concurrency limits 1..4 are replayed on real systems; after every operation the projected concurrency state is checked by TLC against the abstract staging semantics of Lmm.tla (allowed transition, counter = number of enabled counted elements <= limit, no staged variable while all its constraints have room); the same invariants are model-checked on the specification at small scope.',
+        "note": 'Trusted: TLC; the driver harness/lmm_driver.cpp (replays the operations through the public API of lmm::System, reads values back with get_value / get_penalty / get_concurrency_slack, scales doubles by 1e5 and rounds); tolerance = 1e5 * precision/work-amount per unit of magnitude + rounding. Conformance holds for the histories replayed (<= 3 constraints x 7 variables x 26 operations in the quick tier, <= 5 x 10 x 60 in the thorough tier; not the 12 x 20 systems of the statement), exhaustiveness only for Lmm.tla within the stated scope and for the 2-operation extensions of the base systems. In-situ dumps of simulations (hook H2) are not used. TLC -coverage cannot be used on these modules (it runs out of memory building its cost model): vacuity is guarded by measured operation counts. Rejections in the situations recorded in KNOWN_FINDINGS.jsonl (cause tags computed by TLC on the abstract system that follows the implementation) are reported as known findings; a mutation that only shows in those situations would be masked.',
+        "technique": 'TLC model checking of spec/lmm/Lmm.tla (LmmGen, small scope) + TLC-generated histories replayed into the real lmm::System classes (harness/lmm_driver.cpp) + TLC evaluation of the predicates on the logged values (LmmTrace.tla)'}
 DRIVERS = lmm_common.DRIVERS
 
 
